@@ -25,6 +25,13 @@
 (* upscale_tiles): Children[t].  Variant = "asfound": these tiles are      *)
 (* looked up, fetched and stored WITHOUT the dimension (the recursion of   *)
 (* TileManager._scaled_tile drops it).                                     *)
+(*                                                                         *)
+(* The capabilities documents (WMS 1.1.1 / 1.3.0, WMTS KVP, WMTS RESTful   *)
+(* with the default URL template) list the dimension with its values and   *)
+(* its default: Caps(doc).  CapsBroken: the documents that are answered    *)
+(* with an internal error instead (as found: both WMTS documents - the     *)
+(* template looks the dimension up in the variables of a custom RESTful    *)
+(* URL template).                                                          *)
 (***************************************************************************)
 EXTENDS Naturals, FiniteSets, TLC
 
@@ -34,18 +41,20 @@ CONSTANTS Tiles,        \* tile ids
           Targets,      \* \subseteq Tiles: the tiles that requests address
           Values,       \* configured values of the dimension
           Default,      \* \in Values
-          Variant       \* "asfound" | "repaired"
+          Variant,      \* "asfound" | "repaired"
+          CapsBroken    \* \subseteq CapsDocs
 
 Keys == Values \cup {"none", "other"}
 Svc == {"wms", "wmts", "tms"}
 ValueClass == Values \cup {"absent", "default", "other"}
+CapsDocs == {"wms111", "wms130", "wmts_kvp", "wmts_rest"}
 
 VARIABLES store,   \* SUBSET (Tiles \X Keys): tiles in the cache
           stale,   \* \subseteq store: written before the refresh time of the cache
           last     \* the last step
 vars == <<store, stale, last>>
 
-NoStep == [op |-> "none", svc |-> "-", t |-> "-", d |-> "-", key |-> "-", out |-> "-", fetched |-> {}]
+NoStep == [op |-> "none", svc |-> "-", t |-> "-", d |-> "-", key |-> "-", out |-> "-", fetched |-> {}, listed |-> {}, dflt |-> "-"]
 Init == store = {} /\ stale = {} /\ last = NoStep
 
 \* the key a request works with
@@ -65,12 +74,12 @@ Request(svc, t, d) ==
   IN /\ svc = "wms" => d # "default"          \* (the class "default" does not exist for the WMS)
      /\ svc = "tms" => d = "absent"           \* (a TMS request cannot say a value)
      /\ IF k = "refused"
-          THEN /\ last' = [op |-> "req", svc |-> svc, t |-> t, d |-> d, key |-> k, out |-> "refused", fetched |-> {}]
+          THEN /\ last' = [NoStep EXCEPT !.op = "req", !.svc = svc, !.t = t, !.d = d, !.key = k, !.out = "refused"]
                /\ UNCHANGED <<store, stale>>
           ELSE /\ store' = store \cup (created \X {ck})
                /\ stale' = stale \ (created \X {ck})
-               /\ last' = [op |-> "req", svc |-> svc, t |-> t, d |-> d, key |-> k, out |-> ck,
-                           fetched |-> {<<MetaOf[c], ck>> : c \in missing}]
+               /\ last' = [NoStep EXCEPT !.op = "req", !.svc = svc, !.t = t, !.d = d, !.key = k, !.out = ck,
+                                            !.fetched = {<<MetaOf[c], ck>> : c \in missing}]
 
 \* the refresh time of the cache passes a stored tile
 Expire(t, k) ==
@@ -79,7 +88,14 @@ Expire(t, k) ==
   /\ last' = [NoStep EXCEPT !.op = "expire", !.t = t, !.key = k]
   /\ UNCHANGED store
 
-Next == \/ \E svc \in Svc, t \in Targets, d \in ValueClass : Request(svc, t, d)
+\* a capabilities document is requested
+Caps(doc) ==
+  /\ last' = IF doc \in CapsBroken THEN [NoStep EXCEPT !.op = "caps", !.svc = doc, !.out = "error"]
+             ELSE [NoStep EXCEPT !.op = "caps", !.svc = doc, !.out = "ok", !.listed = Values, !.dflt = Default]
+  /\ UNCHANGED <<store, stale>>
+
+Next == \/ \E doc \in CapsDocs : Caps(doc)
+        \/ \E svc \in Svc, t \in Targets, d \in ValueClass : Request(svc, t, d)
         \/ \E t \in Tiles, k \in Keys : Expire(t, k)
 Spec == Init /\ [][Next]_vars
 
@@ -97,5 +113,7 @@ RefusedCostsNothing == [][(last'.op = "req" /\ last'.out = "refused") => (last'.
 FetchedWhatWasMissing ==
   [][(last'.op = "req" /\ last'.out # "refused") =>
         last'.fetched = {<<MetaOf[c], last'.key>> : c \in {c \in Leaves(last'.t) : ~Fresh(c, last'.key)}}]_vars
+\* every capabilities document lists the dimension, its values and its default
+CapsListTheDimension == last.op = "caps" => (last.out = "ok" /\ last.listed = Values /\ last.dflt = Default)
 TypeOK == store \subseteq Tiles \X Keys /\ stale \subseteq store
 =============================================================================
